@@ -359,7 +359,7 @@ func (w *world) express(name []int, cbp bool, digK byte, digNm []int, digCid int
 			t := w.nowMs()
 			txt := w.express(nest.name, nest.cbp, '-', nil, 0, nest.life, sub)
 			w.mu.Lock()
-			w.nested = append(w.nested, fmt.Sprintf("nop %s t=%d", txt, t))
+			w.nested = append(w.nested, fmt.Sprintf("nop %s by=%d t=%d", txt, pid, t))
 			w.mu.Unlock()
 		}
 	}
@@ -771,7 +771,9 @@ func (g *genr) genCase() []gop {
 				o.digK, o.digCid = 'b', g.r.Intn(3)
 			}
 			if g.nested && g.r.Intn(3) == 0 {
-				nl := 1 + g.pick(lifetimes[1:len(lifetimes)-1])
+				// Timers that fire at the same virtual instant run in goroutines of their own in no defined order; with
+				// re-expressed Interests that order can become observable. The runner explores the admissible orders.
+				nl := g.pick([]int{1, 2, 5, 9, 10, 11, 12, 15, 20, 30, 50, 100})
 				o.nest = &nestSpec{name: o.name, cbp: g.r.Intn(2) == 0, life: nl, depth: 1 + g.r.Intn(3)}
 				if g.r.Intn(2) == 0 {
 					o.nest.name = related()
